@@ -102,8 +102,58 @@ def time_add(io, lim):
     io.obligations("C06.time_add")
 
 
+def instant_until(io, since):
+    """Instant::until / since with default rounding (smallest unit nanosecond): the exact difference balanced to the
+    requested largest unit (hour .. nanosecond, default second); |difference| < 2^53 ns so that every field is an exact double"""
+    UN = {1: 1, 2: 10**3, 3: 10**6, 4: 10**9, 5: 60 * 10**9, 6: 3600 * 10**9}       # Unit discriminant -> ns
+    a = io.int("a", "i128", -R.NS_MAX, R.NS_MAX)
+    b = io.int("b", "i128", -R.NS_MAX, R.NS_MAX)
+    io.assume(and_(lt(sub(b.t, a.t), 1 << 53), gt(sub(b.t, a.t), -(1 << 53))))
+    has = io.bool("has_largest")
+    lu = io.cenum("largest", "Unit", [1, 2, 3, 4, 5, 6])
+    if io.kind != "sym":
+        r = io.call(None, [], native=("instant_until", ("result", ("agg", ["f64"] * 6)), [a, b, has, lu, symex.Int(1 if since else 0, "u8")]))
+    else:
+        none = lambda nm: symex.Enum(0, {0: [], 1: [symex.Opaque("unset")]}, "Option")
+        largest = symex.Enum(ite(has.t, 1, 0), {0: [], 1: [lu]}, "Option")
+        settings = symex.Agg([largest, none("u"), none("m"), none("i")])
+        op = symex.Enum(1 if since else 0, {0: [], 1: []}, "DifferenceOperation")
+        inst = lambda v: symex.Agg([symex.Agg([v])])
+        r = io.call(("Instant", None, "diff_instant"), [io.ref(inst(a)), op, io.ref(inst(b)), settings], native=None)
+    diff = sub(a.t, b.t) if since else sub(b.t, a.t)
+    unit = ite(has.t, lu.d, 4)
+    io.witness("C06.until.reach")
+    io.witness("C06.until.negative_difference_in_hours", and_(lt(diff, 0), has.t, eq(lu.d, 6)))
+    io.prove("C06.until.succeeds", eq(r.d, 0))
+    if 0 in r.v:
+        res = r.v[0][0]
+        vals = list(res.f[1].f) if io.kind == "sym" else list(res.f)
+        g = []
+        for v in vals:
+            while isinstance(v, symex.Agg):
+                v = v.f[0]
+            g.append(v.t)
+        ok = eq(r.d, 0)
+        got = 0
+        for v, u in zip(g, [3600 * 10**9, 60 * 10**9, 10**9, 10**6, 10**3, 1]):
+            got = add(got, mul(u, v))
+        io.prove("C06.until.is_exact_difference", eq(got, diff), hyp=ok)
+        io.prove("C06.until.sign_uniform", or_(and_(*[ge(v, 0) for v in g]), and_(*[le(v, 0) for v in g])), hyp=ok)
+        CARRY = [None, 60, 60, 1000, 1000, 1000]
+        UIDX = [6, 5, 4, 3, 2, 1]                      # field k holds Unit discriminant UIDX[k]
+        parts = []
+        for k in range(6):
+            parts.append(implies(gt(UIDX[k], unit), eq(g[k], 0)))
+            if k >= 1:
+                parts.append(implies(lt(UIDX[k], unit), and_(lt(g[k], CARRY[k]), gt(g[k], -CARRY[k]))))
+        io.prove("C06.until.balanced_to_the_largest_unit", and_(*parts), hyp=ok)
+    io.obligations("C06.until")
+
+
 def jobs(tier, seed):
     return [
+        ("instant_until", instant_until, {"since": False}, {"timeout": 300, "unroll": 11, "generics": {"T": "i128"}}),
+        ("instant_since", instant_until, {"since": True}, {"timeout": 300, "unroll": 11, "generics": {"T": "i128"}}),
         ("epoch_ms", epoch_ms, {}, None),
         ("norm_ops", norm_ops, {}, None),
         ("instant_add[|field|<=2^53]", instant_add, {}, None),
